@@ -25,7 +25,9 @@ RULE = ("one case = (compiler, small generated problem inside the compiler's sup
         "ORIGINAL problem: applicable step by step and goal-reaching by the real simulator (re-judged by the real "
         "SequentialPlanValidator before a failure is reported), trajectory constraints by their PDDL3 semantics over the state "
         "sequence. MODEL CORRESPONDENCE (modelled compilers only): the real compiled problem and the Lean model's are compared as "
-        "sorted lists of action variants (origin action, parameters, sorted preconditions, effects), goals and trajectory constraints. "
+        "sorted lists of action variants (origin action, parameters, sorted preconditions, effects), goals and trajectory constraints; "
+        "the origin is read off the real map-back of one ground instance per variant (i-th parameter = (i mod n)-th object of its type), "
+        "which must also keep the argument tuple (the model's backLifted). "
         "Non-trivial = at least one valid compiled plan of length >= 1 was mapped back and judged.")
 ASSUMPTIONS = [
     "validity of a plan = applicable step by step from the initial state and goal-satisfying in the final state according to the real "
@@ -130,6 +132,8 @@ def shrink(payload):
     yield from complib.shrink_case(payload)
 
 
+EXTRA_PROPS = ["UPVerif.Props.C06Lift"]
+
 MANIFEST = {
     "level_text": ("Lean 4 theorems (Props/C06.lean): a generic forward-simulation theorem over abstract transition systems "
                    "(soundness of plan map-back for every plan length, trace preservation), closed under composition (pipelines), "
@@ -140,8 +144,12 @@ MANIFEST = {
                    "QuantifiersRemover) are tied to /repo by a differential comparison of the compiled problems; for ALL ten "
                    "compilers and six pipelines the property itself is decided on the real code by an exhaustive end-to-end "
                    "differential (every plan of the compiled problem up to length 3/4)."),
-    "level_note": ("Partial: theorems cover the parameterless actions of a problem (instantiation of parameters is not proved to "
-                   "commute with the compilations), quantifier-free invariants, DisjunctiveConditionsRemover without goal action and "
+    "level_note": ("Partial: Props/C06Lift.lean lifts the three simulations to ALL action instances (transition system of instances, "
+                   "instantiate-then-compile against compile-then-instantiate up to truth of preconditions and fired effects) under "
+                   "decidable per-problem hypotheses (cerLiftOK / sirLiftOK / DcrLiftOK) and exactness of the walkers on the "
+                   "instances; the latter is discharged for the C11 simplifier model / C12 DNF model from their own theorems "
+                   "where the instantiated expressions are defined (WalkOK: state typing and definedness stay hypotheses). "
+                   "Still: quantifier-free invariants, DisjunctiveConditionsRemover "
                    "without split effect conditions; no theorem for BoundedTypesRemover, QuantifiersRemover, Grounder, "
                    "NegativeConditionsRemover (model or differential only), UsertypeFluentsRemover, TrajectoryConstraintsRemover, "
                    "UndefinedInitialNumericRemover (end-to-end differential only). The simplifier / DNF walker are parameters assumed "
